@@ -10,9 +10,11 @@ producing helpers.  The included obligations are recorded as <property>.<rule of
 CORE = ["C02", "C03", "C05", "C09", "C10"]
 
 INCLUDES = {
-    "C01": ["C02", "C03", "C05", "C10", "C12", "C13", "C14"],      # C09 is already part of C01 (CALLCONV)
-    "C02": ["C10"],
-    "C04": ["C03", "C09"],
+    "C01": ["C02", "C03", "C05", "C10", "C11", "C12", "C13", "C14"],      # C09 is already part of C01 (CALLCONV)
+    "C02": ["C05", "C10", "C11"],  # a failing flush / a cancelled batch reaches the awaiting tasks through the batch lifecycle
+    "C03": ["C05", "C11"],         # termination: every item of a flushed batch is answered, a batch is flushed once
+    "C04": ["C03", "C09", "C14"],  # helpers that issue their per-element requests in several rounds break "all requests travel in one flush"
+    "C07": ["C06"],                # nesting of activation periods presupposes that each context is active exactly while its task runs
     "C05": ["C11"],                # a batch is flushed once: its lifecycle (switch before flush, cancel, items) is C11's subject
     "C08": ["C05", "C09"],
     "C09": ["C12", "C13"],         # C09 quantifies over deduplicate, alru_cache and acached_per_instance as well
@@ -21,5 +23,6 @@ INCLUDES = {
     "C13": CORE,
     "C14": CORE,
     "C15": ["C02", "C10"],
+    "C16": ["C12"],                # the deduplication scope is per thread
     "C17": ["C02", "C03", "C10"],
 }
